@@ -119,7 +119,8 @@ func RefDistinct(in Rel) nodeh.Multiset {
 	return m
 }
 
-// AggSpec is one aggregate of the reference group-by: Kind "count" | "sum" | "count_star"; Col is
+// AggSpec is one aggregate of the reference group-by: Kind "count" | "sum" | "min" | "max" | "avg" (Int,
+// truncating toward zero) | "count_star"; Col is
 // the input column (ignored for count_star). NULL inputs are ignored; an aggregate over no
 // non-NULL input is NULL (the C03 convention; count_star never is).
 type AggSpec struct {
@@ -134,6 +135,7 @@ func RefGroupBy(in Rel, keyCols []int, aggs []AggSpec) nodeh.Multiset {
 		rows  int
 		nn    []int
 		accum []int64
+		sums  []int64 // avg: sum of the non-NULL inputs
 	}
 	groups := map[string]*group{}
 	var order []string
@@ -148,7 +150,7 @@ func RefGroupBy(in Rel, keyCols []int, aggs []AggSpec) nodeh.Multiset {
 		gk := nodeh.RowKey(key)
 		g, ok := groups[gk]
 		if !ok {
-			g = &group{key: key, nn: make([]int, len(aggs)), accum: make([]int64, len(aggs))}
+			g = &group{key: key, nn: make([]int, len(aggs)), accum: make([]int64, len(aggs)), sums: make([]int64, len(aggs))}
 			groups[gk] = g
 			order = append(order, gk)
 		}
@@ -167,6 +169,19 @@ func RefGroupBy(in Rel, keyCols []int, aggs []AggSpec) nodeh.Multiset {
 				if !isNull(c.Values[a.Col]) {
 					g.nn[i] += c.N
 					g.accum[i] += int64(c.N) * c.Values[a.Col].Int
+				}
+			case "min", "max":
+				if v := c.Values[a.Col]; !isNull(v) {
+					if g.nn[i] == 0 || (a.Kind == "min" && v.Int < g.accum[i]) || (a.Kind == "max" && v.Int > g.accum[i]) {
+						g.accum[i] = v.Int
+					}
+					g.nn[i] += c.N
+				}
+			case "avg":
+				if !isNull(c.Values[a.Col]) {
+					g.nn[i] += c.N
+					g.sums[i] += int64(c.N) * c.Values[a.Col].Int
+					g.accum[i] = g.sums[i] / int64(g.nn[i])
 				}
 			}
 		}
